@@ -53,7 +53,7 @@ inductive Fail where
   | subEmpty | subLong | subHost | subGrammar | subStale | subEphemeral | subForeign
   | noPrevious | nil | index | insufficient | invalidCoins | supplyRange | badAddress
   | basic | unknownAddress | depositShort | depositLock | depositUnknownRealm | depositPanic
-  | paramKey | fuel | issueInvalid
+  | paramKey | fuel | issueInvalid | restricted
 deriving DecidableEq, Repr
 
 def Fail.token : Fail → String
@@ -69,7 +69,7 @@ def Fail.token : Fail → String
   | .supplyRange => "err:issue-rejected" | .issueInvalid => "err:issue-rejected" | .badAddress => "err:bad-address" | .basic => "err:basic"
   | .unknownAddress => "err:unknown-address" | .depositShort => "err:deposit-short"
   | .depositLock => "err:deposit-lock" | .depositUnknownRealm => "err:deposit-unknown-realm"
-  | .depositPanic => "err:deposit-panic" | .paramKey => "err:param-key" | .fuel => "err:fuel"
+  | .restricted => "err:restricted" | .depositPanic => "err:deposit-panic" | .paramKey => "err:param-key" | .fuel => "err:fuel"
 
 /-! ## ledger with an event log -/
 
@@ -135,9 +135,16 @@ def sendUnrestricted (b : Bank) (src dst : Addr) (cs : Coins) (c : Cause) : Exce
   let b ← subtractCoins b src cs c
   addCoins b dst cs c
 
-/-- `BankKeeper.SendCoins` with no restricted denoms and no session: zero is a no-op. -/
-def sendCoins (b : Bank) (src dst : Addr) (cs : Coins) (c : Cause) : Except Fail Bank :=
-  if coinsIsZero cs then .ok b else sendUnrestricted b src dst cs c
+/-- `Coins.ContainOneOfDenom({ugnot})`: a positive amount of the restricted denomination -/
+def hasRestricted (cs : Coins) : Bool := cs.any (fun c => c.denom == S!"ugnot" && decide (0 < c.amount))
+
+/-- `BankKeeper.SendCoins` (no session): zero is a no-op; with `restricted` (the bank param
+    `restricted_denoms` = [ugnot]; no account here is token-lock whitelisted) a send carrying
+    ugnot is refused before anything else is looked at. -/
+def sendCoins (restricted : Bool) (b : Bank) (src dst : Addr) (cs : Coins) (c : Cause) : Except Fail Bank :=
+  if coinsIsZero cs then .ok b
+  else if restricted && hasRestricted cs then .error .restricted
+  else sendUnrestricted b src dst cs c
 
 /-- `MintCoins` of ONE coin (what `SDKBanker.IssueCoin` passes).  `validateIssuance` and the
     supply-range error are plain `fmt.Errorf` values: the keeper's bounded panic rendering
@@ -241,6 +248,8 @@ structure Env where
   osend : Coins
   /-- is the path an ephemeral (/e/) run path -/
   ephemeral : Str → Bool
+  /-- is ugnot a restricted denomination for this message -/
+  restricted : Bool := false
 
 /-! ## running state of a message -/
 
@@ -427,7 +436,7 @@ def bankerSend (env : Env) (st : St) (b : Option Nat) (src dst : Str) (amt : Coi
         -- SDKBanker.SendCoins: both addresses must parse
         match env.resolve src, env.resolve dst with
         | some s, some d =>
-          let bank ← sendCoins st.bank s d amt (.bankerSend bid)
+          let bank ← sendCoins env.restricted st.bank s d amt (.bankerSend bid)
           pure { st with bank := bank, spent := spent' }
         | _, _ => .error .badAddress
 
@@ -740,6 +749,9 @@ structure Chain where
   /-- users that have an account -/
   hasAccount : Nat → Bool
 
+/-- the static environment of a message on world `w` sending `send` along -/
+def Chain.envFor (ch : Chain) (w : World) (send : Coins) : Env := { ch.env send with restricted := w.restricted }
+
 def startState (ch : Chain) (w : World) : St :=
   { bank := ⟨w.led, []⟩, toks := [], bankers := ch.persisted, spent := [],
     params := w.params, rmeta := w.rmeta, accum := [] }
@@ -753,10 +765,10 @@ def step (ch : Chain) (w : World) : Msg → Except Fail Outcome
   | .call signer realm send maxDeposit prog =>
     if !coinsValid send || maxDeposit < 0 then .error .basic
     else do
-      let env := ch.env send
+      let env := ch.envFor w send
       let st := startState ch w
       -- keeper.Call: send msg.Send to the package address, then evaluate pkg.Do(cross, …)
-      let bank ← sendCoins st.bank (.user signer) (.pkg realm) send .msgSend
+      let bank ← sendCoins w.restricted st.bank (.user signer) (.pkg realm) send .msgSend
       let st := { st with bank := bank }
       let (o, st) := st.addTok { addr := .user signer, path := [], prev := none, kind := .origin }
       let (t, st) := st.addTok { addr := .pkg realm, path := realm, prev := some o, kind := .cur }
@@ -766,10 +778,10 @@ def step (ch : Chain) (w : World) : Msg → Except Fail Outcome
     if !coinsValid send || maxDeposit < 0 then .error .basic
     else if !ch.hasAccount signer then .error .unknownAddress
     else do
-      let env := ch.env send
+      let env := ch.envFor w send
       let st := startState ch w
       -- keeper.Run: pkgAddr := caller — the send is a self-transfer
-      let bank ← sendCoins st.bank (.user signer) (.user signer) send .msgSend
+      let bank ← sendCoins w.restricted st.bank (.user signer) (.user signer) send .msgSend
       let st := { st with bank := bank }
       let rp := runPath signer
       let (o, st) := st.addTok { addr := .user signer, path := rp, prev := none, kind := .origin }
@@ -779,11 +791,11 @@ def step (ch : Chain) (w : World) : Msg → Except Fail Outcome
   | .bankSend signer dst amt =>
     if !coinsValid amt || amt.isEmpty then .error .basic
     else
-      let env := ch.env []
+      let env := ch.envFor w []
       match env.resolve dst with
       | none => .error .badAddress
       | some d => do
-        let bank ← sendCoins ⟨w.led, []⟩ (.user signer) d amt .bankSend
+        let bank ← sendCoins w.restricted ⟨w.led, []⟩ (.user signer) d amt .bankSend
         pure { world := { w with led := bank.led }, log := bank.log, toks := [], bankers := ch.persisted, diffs := [] }
 
 end GnoVerif.C08
